@@ -546,6 +546,12 @@ func (sp *ServerPool) doHandle(stdctx stdcontext.Context, spCtx *serverPoolConte
 
 	spCtx.stdResp = resp
 	if err = sp.buildResponse(spCtx); err != nil {
+		// The pool timeout also bounds reading the response body, if it
+		// expired while the body was being received, this is a timeout,
+		// not an internal error.
+		if spCtx.stdReq.Context().Err() == stdcontext.DeadlineExceeded {
+			return serverPoolError{http.StatusRequestTimeout, resultTimeout}
+		}
 		return serverPoolError{http.StatusInternalServerError, resultInternalError}
 	}
 
